@@ -112,6 +112,37 @@ fn small_circ(layout: &[usize]) -> Circ {
     b.out(&[x, y])
 }
 
+/// See step 5 of `main`.  Returns the number of block pairs compared.
+fn ot_matrix_monitor(r: &crate::exec::RunResult<Vec<bool>>) -> Result<u64, String> {
+    let mut pairs = 0u64;
+    for m in r.msgs.iter().filter(|m| m.label == "ALSZ_OT_setup") {
+        let crate::schema::Val::Vec(cols) = crate::schema::decode_msg(&m.label, &m.bytes)? else { continue };
+        let vecs: Vec<Vec<u8>> = cols
+            .iter()
+            .map(|c| match c {
+                crate::schema::Val::Vec(b) => b.iter().map(|x| if let crate::schema::Val::U8(v) = x { *v } else { 0 }).collect(),
+                _ => vec![],
+            })
+            .collect();
+        let Some(len) = vecs.first().map(|v| v.len()) else { continue };
+        if vecs.len() < 2 || vecs.iter().any(|v| v.len() != len) {
+            continue;
+        }
+        let blocks = len / 16;
+        for a in 0..blocks {
+            for b in a + 1..blocks {
+                pairs += 1;
+                let d = |v: &Vec<u8>| -> Vec<u8> { (0..16).map(|k| v[a * 16 + k] ^ v[b * 16 + k]).collect() };
+                let d0 = d(&vecs[0]);
+                if vecs.iter().all(|v| d(v) == d0) {
+                    return Err(format!("in the OT matrix {} sends to {} (#{}, {} vectors of {len} bytes) the 128-bit blocks {a} and {b} have the same XOR in every vector: that XOR is the sender's own choice bits {}..{} xor {}..{}", m.from, m.to, m.ord, vecs.len(), a * 128, a * 128 + 128, b * 128, b * 128 + 128));
+                }
+            }
+        }
+    }
+    Ok(pairs)
+}
+
 fn canary_circ(n: usize, h: usize) -> Circ {
     let mut lay = vec![1usize; n];
     lay[h] = 128;
@@ -382,11 +413,41 @@ pub fn main(tier: Tier, seed: u64) -> i32 {
             rep.violation("own_share_constant_positions", format!("n={n} honest party {h}: own mask shares of {} of 128 input wires are constant over {} tapes (wires {:?}...)", constant.len(), vs.len(), &constant[..constant.len().min(8)]), json!({"kind":"c06_canary","n":n,"party":h}));
         }
     }
+    // 5. the OT-extension matrices a party sends as receiver hide its own choice bits (= its mask
+    // shares) behind one pseudo-random pad per base OT.  If two 128-bit blocks of the pads coincide,
+    // the XOR of the two blocks is the same in all 128 vectors and equals the XOR of the party's
+    // own shares at those positions.  Checked on wide batches (more than 1024 OTs per session), for
+    // every pair of 128-bit blocks of every matrix sent.
+    let wide_cases: Vec<MpcCase> = {
+        let mut v = vec![];
+        let c = crate::circuits::and_chain(2, 1100);
+        v.push(MpcCase { inputs: c.inputs_from_mask(0b01), circ: c, p_eval: 0, p_out: vec![0, 1], tmp_mask: 0 });
+        if tier.is_thorough() {
+            let c = crate::circuits::and_chain(3, 1500);
+            v.push(MpcCase { inputs: c.inputs_from_mask(0b110), circ: c, p_eval: 1, p_out: vec![0, 1, 2], tmp_mask: 0 });
+        }
+        v
+    };
+    let wide_res = par_map(&wide_cases, |w, i, case| {
+        let r = run_default(&ExecCfg::new(case.n(), mix(seed, 6600 + i as u64)), mpc_body(case, 860 + w));
+        (check_honest(case, &r), ot_matrix_monitor(&r))
+    });
+    let mut block_pairs = 0u64;
+    for (case, (ok, mon)) in wide_cases.iter().zip(wide_res.iter()) {
+        if let Err(e) = ok {
+            rep.violation("honest_run_failed", format!("wide batch: {e}"), json!({"kind":"mpc_case","case":case}));
+        }
+        match mon {
+            Ok(k) => block_pairs += k,
+            Err(e) => rep.violation("own_share_differences_in_ot_matrix", format!("{}: {e}", case.show()), json!({"kind":"mpc_case","case":case})),
+        }
+    }
+    rep.set("ot_matrix_block_pairs_compared", json!(block_pairs));
     rep.set("canary", json!({"runs": ccfgs.len(), "distinct_mask_vectors": share_vectors.len()}));
     rep.evaluations = (ni_runs.len() + fruns.len() + ccfgs.len()) as u64;
     rep.distinct_nontrivial = (ni_runs.len() - ni_cfgs.len() + fruns.len() + ccfgs.len()) as u64;
     rep.exhaustive = Some(true);
-    rep.rule = "1. per configuration and tape, every input assignment of the honest party: all messages it sends are diffed (only 'masked inputs' [exact difference], its broadcast echo, 'labels' and 'lambda' may differ); 2. own mask share per wire reconstructed from the transcript over the enumerated tape set (integers VERIF_SEED*N..+N) for input all-0 and all-1: both values occur, count within 5.5 sigma; 3. probed global keys and 128-bit own-mask vectors pairwise distinct over tapes and parties; 4. 128-wire canary: neither input bits nor own shares occur in the party's traffic as bool bytes or packed at any bit offset. distinct = (configuration, input, tape); the first run of every non-interference configuration is the reference and is not counted as non-trivial".into();
+    rep.rule = "1. per configuration and tape, every input assignment of the honest party: all messages it sends are diffed (only 'masked inputs' [exact difference], its broadcast echo, 'labels' and 'lambda' may differ); 2. own mask share per wire reconstructed from the transcript over the enumerated tape set (integers VERIF_SEED*N..+N) for input all-0 and all-1: both values occur, count within 5.5 sigma; 3. probed global keys and 128-bit own-mask vectors pairwise distinct over tapes and parties; 4. 128-wire canary: neither input bits nor own shares occur in the party's traffic as bool bytes or packed at any bit offset; 5. on batches wider than 1024 OTs, no two 128-bit blocks of an OT-extension matrix have the same XOR in all 128 vectors (that XOR would be the receiver's own choice bits = mask shares). distinct = (configuration, input, tape); the first run of every non-interference configuration is the reference and is not counted as non-trivial".into();
     rep.assumptions = vec![
         "the frequency clause is a count over an enumerated tape set, not a decision by exhaustive exploration (DESIGN.md 4.C06)".into(),
         "entropy reaches the engine only through the harness's getrandom backend".into(),
